@@ -97,6 +97,7 @@ type interpreter struct {
 	syncMaps           map[*value]*syncMapModel
 	globalsList        []*ssa.Global
 	fmtDepth           int
+	reverseMaps        bool // iterate maps in the opposite order (vpReverseMapOrder)
 	onceDone           map[*value]bool
 	pools              map[*value][]value // sync.Pool contents (per path)
 	mapIters           map[*value]*mapIterModel
